@@ -27,10 +27,19 @@ ASSUMPTIONS = [
 ]
 
 
-def run_seq(text, ops):
+def run_seq(text, ops, reparse=False):
+    """Apply the operations on one live document, or - like successive nima invocations - each on
+    a fresh parse of the previous output."""
     live = E.LiveDoc(text)
     out = text
     for op in ops:
+        if reparse and out != text:
+            try:
+                live = E.LiveDoc(out)
+            except Exception as exc:  # noqa: BLE001
+                r = E.OpResult(op, out)
+                r.exc_type, r.exc_msg = type(exc).__name__, "parse: " + str(exc)[:160]
+                return None, r
         r = live.apply(op)
         if r.exc_type is not None:
             return None, r
@@ -124,8 +133,13 @@ def run_shard(spec):
             p = rng.choice(cands)
             scoped = rng.random() < 0.2
             sp = ("@" if scoped else "") + (E.spell(p) if not scoped else "s_idem" + str(rng.randrange(9)))
+            rp = rng.random() < 0.5   # same object, or a fresh parse between the two applications
             once, r1 = run_seq(text, [E.Op("set", sp, val)])
-            twice, r2 = run_seq(text, [E.Op("set", sp, val), E.Op("set", sp, val)])
+            twice, r2 = run_seq(text, [E.Op("set", sp, val), E.Op("set", sp, val)], reparse=rp)
+            if once is not None and twice is None and rp:
+                witness("idempotence", {"effect": "second-application-refused-after-reparse", "wrappers": wl,
+                                        "scoped": str(scoped), "fresh": str(p not in leaves), "exc": r2.exc_type},
+                        {**base_case, "ops": [["set", sp, val]] * 2}, f"{r2.exc_type}: {r2.exc_msg}")
             res["evaluations"] += 1
             if once is None or twice is None:
                 obs["refused_instances"] += 1
@@ -192,7 +206,7 @@ def run_shard(spec):
                 if loc is not None and loc[0][loc[1]].value_node is not None:
                     old = loc[0][loc[1]].value_node.text.decode("utf-8", "replace")
                     sp = E.spell(p)
-                    again, r = run_seq(text, [E.Op("rm", sp, ""), E.Op("set", sp, old)])
+                    again, r = run_seq(text, [E.Op("rm", sp, ""), E.Op("set", sp, old)], reparse=rng.random() < 0.5)
                     res["evaluations"] += 1
                     if again is None:
                         obs["refused_instances"] += 1
